@@ -12,6 +12,7 @@ mod g_pipe;
 mod g_pad;
 mod g_auth;
 mod g_dest;
+mod g_push;
 mod e2e;
 
 use std::io::Write;
@@ -35,6 +36,7 @@ fn group_by_name(name: &str) -> Option<Box<dyn Group>> {
         "pad" => Some(Box::new(g_pad::PadGroup)),
         "auth" => Some(Box::new(g_auth::AuthGroup)),
         "dest" => Some(Box::new(g_dest::DestGroup)),
+        "push" => Some(Box::new(g_push::PushGroup)),
         _ => None,
     }
 }
